@@ -276,7 +276,13 @@ impl Ctx {
 		let mut runner = TestRunner::new(config);
 		let failed_once = Cell::new(false);
 		let last_failure: RefCell<Option<Failure>> = RefCell::new(None);
+		let trace = std::env::var("PDBV_TRACE_CASE").is_ok();
 		let result = runner.run(&strat, |case| {
+			if trace {
+				// debugging aid for hangs: the case in progress is left on disk
+				let doc = serde_json::json!({ "property": self.prop, "sub": sub, "signature": "in-progress", "detail": "", "case": &case });
+				let _ = std::fs::write(scratch_root().join(format!("pdbv.current.{}.{}.json", self.prop, self.shard)), serde_json::to_string(&doc).unwrap_or_default());
+			}
 			let dir = self.case_dir();
 			let r = guarded(|| f(&case, &dir));
 			let _ = std::fs::remove_dir_all(&dir);
